@@ -462,6 +462,18 @@ impl Gen {
             let id = self.row_id();
             prog.push(Stmt::Row { id, entries: self.entries(plan) });
         }
+        // a block of draws run twice, each time right after `resetRandom`: the second pass must repeat the draws of the first
+        // (same bounds in the same order from the same restart point) whatever happened in between
+        if self.k.allow_random && self.rng.gen_bool(0.5) {
+            let (a, b) = (self.rng.gen_range(2..60), self.rng.gen_range(2..1000));
+            let draw = Stmt::Let { name: "rr".into(), e: Expr::bin("+", Expr::call("random", vec![Expr::Num(a)]), Expr::bin("*", Expr::call("random", vec![Expr::Num(b)]), Expr::Num(64))) };
+            for _ in 0..2 {
+                prog.push(Stmt::Reset);
+                prog.push(draw.clone());
+                let id = self.row_id();
+                prog.push(Stmt::Row { id, entries: self.entries(plan) });
+            }
+        }
         // declarations of the virtual signals: anywhere among the statements, at any depth, in any order
         let mut vs = plan.virtuals.clone();
         vs.shuffle(&mut self.rng);
